@@ -85,7 +85,9 @@ class RealPart(Module):
         return np.real(z)
 
     def _sensitivity(self, dx):
-        return np.real(dx)
+        dz = np.real(dx)
+        # The sensitivity must be able to accumulate complex contributions of other modules that use z
+        return dz + 0j if np.iscomplexobj(self.sig_in[0].state) else dz
 
 
 class ImagPart(Module):
